@@ -6,3 +6,4 @@ INVARIANT InBounds
 INVARIANT PeekAgrees
 INVARIANT IterAgrees
 CHECK_DEADLOCK FALSE
+INVARIANT MarshalTerminatesBalanced
